@@ -248,9 +248,10 @@ def report(res, level="model_checking", rule="", assumptions=(), invariants_note
     cov.update({k: v for k, v in res.extra.items()})
     ev = {"property_id": res.prop, "tier": res.tier, "seed": res.seed, "level": level, "coverage": cov,
           "assumptions": list(assumptions), "wall_s": round(wall, 1), "violations": sum(m.get("_count", 1) for m in violations)}
-    os.makedirs(os.path.join(VERIF, "evidence"), exist_ok=True)
-    with open(os.path.join(VERIF, "evidence", "%s.json" % res.prop), "w") as f:
-        json.dump(ev, f, indent=1, default=str)
+    if res.prop.startswith("C"):          # extras (X..) are not listed properties: no evidence file
+        os.makedirs(os.path.join(VERIF, "evidence"), exist_ok=True)
+        with open(os.path.join(VERIF, "evidence", "%s.json" % res.prop), "w") as f:
+            json.dump(ev, f, indent=1, default=str)
     print("%s tier=%s seed=%d: %d TLC states, %d cases replayed (%d library calls), %d mismatching, %d known, %d violations, %.1fs"
           % (res.prop, res.tier, res.seed, res.distinct, res.cases, res.calls, res.nmism,
              sum(v[1] for v in known_hit.values()), len(violations), wall))
